@@ -98,8 +98,30 @@ def run_impose(rng, obs):
             obs.desc['w'] = ww; obs.desc['mass'] = lp
             obs.check(R.close(R.lnorm(y, pn), 1.0), 'target:requested total reached', f=which, mass=lp, w=ww, observed=R.lnorm(y, pn), y=list(y))
             t = R.wsum(y)
+        elif rng.random() < 0.2 and n >= 2 and abs(sum(ww[:-1])) > 1e-9:
+            # a total of exactly zero, reached with the documented counterbalance (zsum=True; zmass scales the members)
+            zm = rng.choice([None, 1.0, 2.0, 0.5])
+            kw = {'zsum': True}
+            if zm is not None: kw['zmass'] = zm
+            y = mm.normalize(list(ww), 0.0, **kw) if which == 'normalize' else mm.impose_sum(0.0, list(ww), **kw)
+            obs.desc.update(w=ww, mass=0.0, zsum=True, zmass=zm); obs.event('zero_total_counterbalanced')
+            scale_ = sum(abs(v) for v in y) or 1.0
+            obs.check(len(y) == n and abs(R.wsum(y)) <= 1e-12 * scale_, 'target:requested total reached', f=which, t=0.0, w=ww, observed=R.wsum(y), y=list(y), zsum=True, zmass=zm)
+            fac = [a / b for a, b in zip(y[:-1], ww[:-1]) if b != 0]
+            obs.check(all(R.close(f_, fac[0]) for f_ in fac) and all((a == 0) == (b == 0) for a, b in zip(y[:-1], ww[:-1])),
+                      'keeps:normalisation rescales every weight by the same factor', f=which, w=ww, y=list(y), zsum=True, zmass=zm, note='all members but the counterbalancing one')
+            if zm is not None and fac:
+                y1 = mm.normalize(list(ww), 0.0, zsum=True, zmass=1.0)
+                obs.check(all(R.close(a, zm * b) for a, b in zip(y, y1)), 'keeps:zmass scales the members of a zero-total result', f=which, w=ww, zmass=zm, y=list(y), unit=list(y1))
+            obs.desc['t'] = 0.0
+            obs.nontrivial = True
+            obs.notes = {'missed_before': True}
+            return
         else:
-            y = mm.normalize(list(ww), t) if which == 'normalize' else mm.impose_sum(t, list(ww))
+            zkw = {}
+            if rng.random() < 0.3: zkw = {'zsum': rng.choice([True, False]), 'zmass': rng.choice([1.0, 3.0])}     # documented to matter only for a zero total
+            y = mm.normalize(list(ww), t, **zkw) if which == 'normalize' else mm.impose_sum(t, list(ww), **zkw)
+            obs.desc['zero_total_options'] = zkw
         obs.desc['w'] = ww
         obs.check(R.close(R.wsum(y), t), 'target:requested total reached', f=which, t=t, w=ww, observed=R.wsum(y))
         k = R.wsum(y) / R.wsum(ww)
@@ -167,10 +189,25 @@ def run_support(rng, obs):
         if rng.random() < 0.3: idx = [i - n for i in idx]       # negative indexing is documented
         norm = set(i % n for i in idx)
         keep = norm if which == 'impose_support' else set(range(n)) - norm
+        revive = which == 'impose_unweighted' and rng.random() < 0.2
+        if revive:
+            # every weight that is to stay is zero already: with nullable=False the mass is re-created evenly on the entries that stay
+            for i in keep: w[i] = 0.0
+            if not any(w[i] > 0 for i in norm): w[next(iter(norm))] = 0.6
+            tot, m = R.wsum(w), R.wmean(x, w); obs.desc['w'] = w
+            ys, yw = mm.impose_unweighted(list(idx), list(x), list(w), nullable=False)
+            obs.desc.update(index=idx, nullable=False); obs.event('nullable_false_revival')
+            obs.check(all(yw[i] == 0 for i in norm), 'target:exactly the designated weights are zero', f=which, index=idx, w=w, yw=list(yw), nullable=False)
+            obs.check(all(yw[i] > 0 and R.close(yw[i], tot / len(keep)) for i in keep), 'keeps:nullable=False re-creates the weight evenly on the entries that stay', f=which, index=idx, w=w, yw=list(yw))
+            obs.check(R.close(R.wsum(yw), tot), 'keeps:total weight preserved', f=which, before=tot, after=R.wsum(yw), nullable=False)
+            obs.check(R.close(R.wmean(ys, yw), m, 1e-9, 1e-9 * (1 + abs(m))), 'keeps:weighted mean preserved', f=which, before=m, after=R.wmean(ys, yw), x=x, w=w, nullable=False)
+            obs.nontrivial = True
+            return
         if not any(w[i] > 0 for i in keep):
             j = next(iter(keep)); w[j] = 0.7; tot, m = R.wsum(w), R.wmean(x, w); obs.desc['w'] = w
-        ys, yw = getattr(mm, which)(list(idx), list(x), list(w))
-        obs.desc['index'] = idx
+        nkw = {'nullable': rng.choice([True, False])} if which == 'impose_unweighted' and rng.random() < 0.3 else {}     # inert while a kept weight is positive
+        ys, yw = getattr(mm, which)(list(idx), list(x), list(w), **nkw)
+        obs.desc['index'] = idx; obs.desc['options'] = nkw
         obs.check(all(yw[i] == 0 for i in range(n) if i not in keep), 'target:exactly the designated weights are zero',
                   f=which, index=idx, w=w, yw=list(yw))
         obs.check(all((yw[i] > 0) == (w[i] > 0) for i in keep), 'keeps:kept weights stay positive (zero stays zero)', f=which, index=idx, w=w, yw=list(yw))
